@@ -27,6 +27,7 @@ HOST = "h"
 ALPHABET = ["CR", "LF", "NUL", "DEL", "SP", "HT", ":", "%", "a", "Z", "NA", "#", "?", "/"]
 NAMED = {"CR": "\r", "LF": "\n", "NUL": "\x00", "DEL": "\x7f", "SP": " ", "HT": "\t", "NA": "\xe9"}
 _BYTE2SYM = {13: "CR", 10: "LF", 0: "NUL", 127: "DEL", 32: "SP", 9: "HT"}
+COMBINED = ["InvAllOnRequest", "InvH1UnsafeIsH2Refused", "InvExpectTotal"]       # InvAllOnRequest = the first six, sharing Serialize/Parse
 INVARIANTS = ["InvParseSerializeIdentity", "InvRefuseIffUnrepresentable", "InvRefusalJudged", "InvTargetIsSafe",
               "InvAutoOnlyWhenAbsent", "InvEncodeIdempotent", "InvH1UnsafeIsH2Refused", "InvExpectTotal"]
 
@@ -363,29 +364,8 @@ def _unq(s):
     return s.replace('\\\\', '\x00').replace('\\"', '"').replace('\x00', '\\')
 
 
-def _emit_shard(args):
-    cfg, envdoc, s, limit_seed = args
-    items = []
-
-    def on_line(ln):
-        if not ln.startswith(_IN):
-            return False
-        if not ln.endswith('">>'):
-            raise tlc.MachineryError("wrapped emission line: " + ln[:200])
-        d = json.loads(_unq(ln[len(_IN):-3]))
-        items.append((d["req"], d["expect"], d["wire"]))
-        return True
-
-    r = tlc.run("MC_Wire", cfg, workers=1, on_line=on_line, files={"wire_env.json": json.dumps(envdoc)},
-                env={"WIRE_ENV": "wire_env.json"}, timeout=7200)
-    if r.violated:
-        raise tlc.MachineryError(f"emission run reported {r.violated}")
-    emitted = len(items)
-    if not envdoc.get("h2", True):
-        items = [it for it in items if it[0]["level"] != "h2"]
-    res = assess(items, "emitted")
-    res.update({"emitted": emitted, "distinct": r.distinct, "wall": r.wall, "shard": s})
-    return res
+def _assess_chunk(items):
+    return assess(items, "emitted")
 
 
 def random_request(rng):
@@ -446,8 +426,7 @@ def _random_shard(args):
 
 def run(rep):
     quick = rep.tier == "quick"
-    bounds = dict(m=3, u=3, n=3, v=3, pair=1, h2=3, d=4) if quick else dict(m=4, u=4, n=3, v=4, pair=1, h2=3, d=5)
-    K = 16
+    bounds = dict(m=2, u=3, n=2, v=3, pair=1, h2=2, d=3) if quick else dict(m=4, u=4, n=3, v=4, pair=1, h2=3, d=5)
     h2 = h2_available()
     sd = seeds()
     envdoc = env_doc(sd)
@@ -460,25 +439,44 @@ def run(rep):
     rep.assumptions = ["header names are distinct dict keys; no caller-supplied framing header (C11)",
                        "only valid body kinds; host part of the URL is benign (C14/C15)",
                        "HTTP/2: header validity at putheader only", "TLC 1.8, CPython http.client and vh/net.py are trusted"]
-    invs = "\n".join("INVARIANT " + i for i in INVARIANTS)
+    invs = "\n".join("INVARIANT " + i for i in COMBINED)
     files = {"wire_env.json": json.dumps(envdoc)}
-    # stage 1
-    r1 = tlc.run("MC_Wire", MC_CFG.format(k=1, s=0, emit="FALSE", invs=invs, **bounds), workers="auto", files=files, heap="3g",
-                 env={"WIRE_ENV": "wire_env.json"}, timeout=7200)
-    rep.add_tlc(f"MC_Wire {bounds} seeds={len(sd)} invariants={len(INVARIANTS)}", r1)
+    # stage 1 + 2: one exhaustive run checks every invariant in every state and prints every explored request with the
+    # spec's three-valued expectation (and, where it must be exactly this, the canonical bytes)
+    J = max(1, int(os.environ.get("VERIF_JOBS") or 0) or os.cpu_count() or 4)
+    items = []
+
+    def on_line(ln):
+        if not ln.startswith(_IN):
+            return False
+        if not ln.endswith('">>'):
+            raise tlc.MachineryError("wrapped emission line: " + ln[:200])
+        d = json.loads(_unq(ln[len(_IN):-3]))
+        items.append((d["req"], d["expect"], d["wire"]))
+        return True
+
+    r1 = tlc.run("MC_Wire", MC_CFG.format(k=1, s=0, emit="TRUE", invs=invs + "\nINVARIANT EmitInv", **bounds), workers=J, files=files,
+                 heap="3g", env={"WIRE_ENV": "wire_env.json"}, timeout=7200, on_line=on_line)
+    rep.add_tlc(f"MC_Wire {bounds} seeds={len(sd)} invariants={INVARIANTS} (the first six evaluated as InvAllOnRequest)", r1)
     if r1.violated:
-        rep.violation("SpecInvariant", f"TLC: {r1.violated} violated in Wire.tla over the hostile domain\n{r1.out[-1500:]}")
+        # name the clause: the same domain again with one INVARIANT line per clause
+        r1b = tlc.run("MC_Wire", MC_CFG.format(k=1, s=0, emit="FALSE", invs="\n".join("INVARIANT " + i for i in INVARIANTS), **bounds),
+                      workers=J, files=files, heap="3g", env={"WIRE_ENV": "wire_env.json"}, timeout=7200)
+        rep.violation("SpecInvariant", f"TLC: {r1b.violated or r1.violated} violated in Wire.tla over the hostile domain\n{(r1b.out if r1b.violated else r1.out)[-1500:]}")
         return
-    with mp.Pool(max(1, int(os.environ.get("VERIF_JOBS") or 0) or os.cpu_count() or 4)) as pool:
-        # stage 2/3/4 on the emitted domain (K shards, whatever the size of the pool)
-        jobs = [(MC_CFG.format(k=K, s=s, emit="TRUE", invs="INVARIANT EmitInv", **bounds), envdoc, s, rep.seed) for s in range(K)]
-        outs = pool.map(_emit_shard, jobs)
-        emitted = sum(o["emitted"] for o in outs)
-        if emitted != r1.distinct:
-            raise tlc.MachineryError(f"emission incomplete: {emitted} requests emitted, stage 1 explored {r1.distinct}")
-        # stage 4 beyond the bound
-        nrand, per = (3200, 200) if quick else (64000, 2000)
-        outs_r = pool.map(_random_shard, [(rep.seed * 100003 + i, per) for i in range(nrand // per)])
+    emitted = len(items)
+    if emitted != r1.distinct or len({key(it[0]) for it in items}) + 0 > emitted:
+        raise tlc.MachineryError(f"emission incomplete: {emitted} requests emitted, stage 1 explored {r1.distinct}")
+    if not h2:
+        items = [it for it in items if it[0]["level"] != "h2"]
+    random.Random(rep.seed).shuffle(items)          # even out the cost of the batches
+    per = min(30000, max(2000, (len(items) + J - 1) // J))     # requests per batch = per TLC trace-validation JVM
+    with mp.Pool(J) as pool:
+        # stage 3/4 on the emitted domain, and beyond the bound
+        fut = pool.map_async(_assess_chunk, [items[i:i + per] for i in range(0, len(items), per)])
+        nrand, per_r = (1600, 400) if quick else (64000, 4000)
+        outs_r = pool.map(_random_shard, [(rep.seed * 100003 + i, per_r) for i in range(nrand // per_r)])
+        outs = fut.get()
     tally = {}
     for o in outs + outs_r:
         rep.evaluations += o["n"]
@@ -494,7 +492,6 @@ def run(rep):
         for s in o["samples"][:2]:
             rep.sample(s, cap=8)
     executed = sum(o["n"] for o in outs)
-    h2_emitted = 0 if h2 else None
     if h2 and executed != emitted:
         raise tlc.MachineryError(f"{emitted} emitted but {executed} executed")
     rep.extra["emitted_requests"] = emitted
